@@ -11,6 +11,7 @@
 -/
 import Kanal.Generated
 import Kanal.MutexM
+import Kanal.PtrM
 
 namespace Kanal.Tie
 open Kanal Kanal.Generated
@@ -115,6 +116,26 @@ theorem signal_structure :
     final_tests_total = final_tests_locked ∧ signal_consts = [0, 1, 2, 3] ∧
     spins_wait = [256] ∧ spins_wait_timeout = [32] ∧ spins_async_blocking_wait = [32] := by decide
 
+/-! ### `KanalPtr` size tests (C04) -/
+
+/-- The size tests of pointer.rs, lib.rs and future.rs as the byte model takes them. -/
+def sizeCfg : PtrM.SizeCfg :=
+  match sizeTests_ptr_new_from, sizeTests_ptr_new_owned, sizeTests_ptr_new_write_address_ptr, sizeTests_ptr_read,
+        sizeTests_ptr_write, sizeTests_ptr_copy, sizeTests_ptr_store_as_kanal_ptr with
+  | [a], [b], [c], [r1, r2], [w1, w2], [c1, c2], [st] =>
+    match sizeTests_lib_recv, sizeTests_lib_recv_timeout, sizeTests_fut_send_new, sizeTests_fut_send_poll,
+          sizeTests_fut_send_read_local_data, sizeTests_fut_send_drop_local_data, sizeTests_fut_recv_poll,
+          sizeTests_fut_recv_read_local_data, sizeTests_fut_recv_drop_local_data with
+    | [l1], [l2], [f1], [f2], [f3], [f4], [g2], [g3], [g4] =>
+      ⟨a, b, c, r1, r2, w1, w2, c1, c2, st, l1, l2, f1, f2, f3, f4, g2, g3, g4⟩
+    | _, _, _, _, _, _, _, _, _ => { PtrM.SizeCfg.good with readZst := (.ne, false) }
+  | _, _, _, _, _, _, _ => { PtrM.SizeCfg.good with readZst := (.ne, false) }
+
+/-- All 21 size tests are present, and each compares the way the byte model's proofs need
+    (`> pointer size` for the indirect encoding, `== 0` / `> 0` for the zero-sized case);
+    `new_unchecked` has none. -/
+theorem size_tests_ok : sizeCfg = PtrM.SizeCfg.good ∧ sizeTests_ptr_new_unchecked = [] := by decide
+
 /-! ### Critical sections (C08, C10, C11, C12, C14, C18, C19) -/
 
 /-- All eight admission tests are `queue.len() < capacity`. -/
@@ -180,6 +201,7 @@ end Kanal.Tie
 #print axioms Kanal.Tie.signal_uniform
 #print axioms Kanal.Tie.signal_ords_ok
 #print axioms Kanal.Tie.signal_structure
+#print axioms Kanal.Tie.size_tests_ok
 #print axioms Kanal.Tie.admission_ok
 #print axioms Kanal.Tie.send_guards_ok
 #print axioms Kanal.Tie.recv_guards_ok
